@@ -107,3 +107,49 @@ def plain(x):
     if isinstance(x, list):
         return [plain(v) for v in x]
     return x
+
+
+def skeleton(R):
+    """the framing of a result list: element kinds, the header fields that delimit packets and
+    flowsets, how many records / values each data flowset holds, and error elements in full.
+    Properties about framing, chaining, filtering and caches are compared on this projection so
+    that a change confined to value decoding does not make them "no longer shown"."""
+    if not isinstance(R, list) or isinstance(R, Pairs):
+        return R
+    out = []
+    for e in R:
+        if not (isinstance(e, Pairs) and len(e) == 1):
+            out.append(e)
+            continue
+        kind, body = e[0]
+        if kind == "Error":
+            out.append(e)
+        elif kind in ("V5", "V7"):
+            h = get(body, "header")
+            out.append(Pairs([(kind, Pairs([("count", get(h, "count")), ("records", len(get(body, "flowsets") or []))]))]))
+        elif kind in ("V9", "IPFix"):
+            h = get(body, "header")
+            sets = []
+            for fs in get(body, "flowsets") or []:
+                fh = get(fs, "header")
+                b = get(fs, "body")
+                bk = b[0][0] if isinstance(b, Pairs) and b else None
+                inner = b[0][1] if bk else None
+                n = None
+                if bk in ("Data", "OptionsData") and get(inner, "fields") is not None:
+                    n = len(get(inner, "fields"))
+                elif bk in ("Template", "OptionsTemplate"):
+                    ts = get(inner, "templates")
+                    n = len(ts) if ts is not None else 1
+                sets.append(Pairs([("id", get(fh, "flowset_id", get(fh, "header_id"))), ("length", get(fh, "length")), ("kind", bk), ("n", n)]))
+            out.append(Pairs([(kind, Pairs([("count", get(h, "count")), ("length", get(h, "length")), ("sets", sets)]))]))
+        else:
+            out.append(e)
+    return out
+
+
+def outcomes(L):
+    """per element: did the consumer return a value, an error, or panic (C01 compares only this)"""
+    if not isinstance(L, list) or isinstance(L, Pairs):
+        return L
+    return [x if x in ("PANIC", "ERR", None) else "ok" for x in L]
